@@ -71,6 +71,10 @@ class Gen:
             if mods and r.random() < 0.3:
                 m = r.choice(mods)[0]  # the same layer object called a second time
                 self.mark("layer_reused")
+            elif mods and r.random() < 0.3:
+                # a second layer whose weight is the very Parameter of an earlier one
+                m = b.mod("Linear", din, dout, bias=r.random() < 0.7, tie_to=r.choice(mods)[0])
+                self.mark("tied_layers")
             else:
                 m = b.mod("Linear", din, dout, bias=r.random() < 0.7)
                 self.lin_mods.append((m, din, dout))
@@ -83,7 +87,7 @@ class Gen:
             w = b.param([dout, din], 1.0)
             bb = b.param([dout], 0.1) if r.random() < 0.5 else None
             out = b.op("u_linear", [cur], oshape, w=w, b=bb,
-                       constraint=r.choice(["to_output_scale", None, "to_grad_input_scale"]))
+                       constraint=r.choice(["to_output_scale", None, "to_grad_input_scale"]), ckw=r.random() < 0.5)
         else:
             cands = [c for c in self.lin_params if c[2] == din and c[3] == dout and (c[1] is not None or st == "nobias2" or True)]
             if cands and r.random() < 0.3:
